@@ -182,6 +182,66 @@ def expand_source(s):
     return 'ipc://' + s[:i].strip() + s[i:]
 
 
+KINDS = ['dataonly', 'bgr', 'gray', 'jpg', 'nodata', 'rgb']
+_jpg_cache = {}
+
+
+def payload(kind, name, inc, seq, topic):
+    """Deterministic frame content of kind `kind` (pure function: the oracle recomputes it).  -> (Frame, expected dict)"""
+
+    import hashlib
+    import numpy as np
+    import cv2
+    from openfilter.filter_runtime.frame import Frame
+
+    data = {} if kind == 'nodata' else {'o': name, 'i': inc, 'seq': seq, 'via': [], 'tp': topic, 'u': 'ünï', 'n': None, 'l': [1, 2.5, 'x']}
+    sha  = lambda b: hashlib.sha1(bytes(b)).hexdigest()[:12]
+
+    if kind == 'dataonly':
+        return Frame(data), {'img': None, 'jpg': None, 'data': data}
+
+    if kind in ('bgr', 'rgb', 'nodata'):
+        arr = ((np.arange(36, dtype=np.int64) * 5 + seq * 7 + len(topic)) % 256).astype(np.uint8).reshape(3, 4, 3)
+        fmt = 'RGB' if kind == 'rgb' else 'BGR'
+
+        return Frame(arr, data, fmt), {'img': ((3, 4, 3), fmt, sha(arr.tobytes())), 'jpg': None, 'data': data}
+
+    if kind == 'gray':
+        arr = ((np.arange(12, dtype=np.int64) * 9 + seq * 3 + len(topic)) % 256).astype(np.uint8).reshape(3, 4)
+
+        return Frame(arr, data), {'img': ((3, 4), 'GRAY', sha(arr.tobytes())), 'jpg': None, 'data': data}
+
+    if kind == 'jpg':
+        key = (seq % 4, len(topic))
+
+        if key not in _jpg_cache:
+            yy, xx = np.mgrid[0:8, 0:10]
+            arr = np.stack([(yy * 9 + key[0] * 20) % 256, (xx * 11) % 256, (yy + xx) * 6 + key[1]], axis=2).astype(np.uint8)
+            ok, buf = cv2.imencode('.jpg', arr)
+            _jpg_cache[key] = bytes(buf)
+
+        jpg = _jpg_cache[key]
+
+        return Frame.from_jpg(jpg, data, 8, 10, 'BGR'), {'img': ((8, 10, 3), 'BGR', None), 'jpg': sha(jpg), 'data': data}
+
+    raise ValueError(kind)
+
+
+def content_of(frame):
+    import hashlib
+
+    sha = lambda b: hashlib.sha1(bytes(b)).hexdigest()[:12]
+
+    if not frame.has_image:
+        return {'img': None, 'jpg': None, 'data': frame.data}
+
+    has_jpg = frame.has_jpg
+    jpg     = sha(frame.jpg) if has_jpg else None
+    img     = frame.image
+
+    return {'img': (tuple(img.shape), frame.format, None if has_jpg else sha(img.tobytes())), 'jpg': jpg, 'data': frame.data}
+
+
 _filter_cls = None
 
 
@@ -252,7 +312,11 @@ def SimFilterClass():
                 seq = self.nsent
                 self.nsent += 1
                 prov = {'o': spec['name'], 'i': w.current.incarnation, 'seq': seq, 'via': []}
-                out  = {t: Frame({**prov, 'tp': t}) for t in spec.get('topics', ['main'])}
+                if (pl := spec.get('payload')) is not None:    # {'rotate': True} -> kind of (topic j, seq k) = KINDS[(j + k) % len]
+                    out = {t: payload(KINDS[(j + seq) % len(KINDS)], spec['name'], w.current.incarnation, seq, t)[0]
+                           for j, t in enumerate(spec.get('topics', ['main']))}
+                else:
+                    out = {t: Frame({**prov, 'tp': t}) for t in spec.get('topics', ['main'])}
                 self._log('process', k=k, mid=None, inp={}, out=_summ(out))
                 self._fault('process', seq)
                 w.activity()
@@ -261,7 +325,7 @@ def SimFilterClass():
                     if op[0] == 'callable':
                         frames_out = out
                         def deferred(frames_out=frames_out, seq=seq):
-                            self._log('deferred', k=k, seq=seq)
+                            self._log('deferred', k=k, seq=seq, wire_len=len(W().net.wire))
                             return frames_out
                         return deferred
                     if op[0] == 'empty_at' and seq in op[1]:
@@ -280,6 +344,9 @@ def SimFilterClass():
             seqs = [v['seq'] for v in inp.values() if v['seq'] is not None]
             seq  = seqs[0] if seqs else None
             rec  = self._log('process', k=k, mid=mid, inp=inp, out=None, tags=last['tags'] if last is not None else {})
+
+            if spec.get('log_content'):
+                rec['content'] = {t: content_of(f) for t, f in frames.items()}
             w.activity()
             self._fault('process', k)
 
@@ -322,7 +389,7 @@ def SimFilterClass():
                 elif o == 'callable':
                     frames_out = ret
                     def deferred(frames_out=frames_out):
-                        self._log('deferred', k=k, seq=seq)
+                        self._log('deferred', k=k, seq=seq, wire_len=len(W().net.wire))
                         return frames_out
                     ret = deferred
                 elif o == 'none':
@@ -335,7 +402,7 @@ def SimFilterClass():
             return ret
 
     def _summ(frames):
-        return {t: (f.data.get('seq') if isinstance(f.data, dict) else None) for t, f in frames.items()}
+        return {t: (f.data.get('seq') if isinstance(f.data, dict) and f.data else None) for t, f in frames.items()}
 
     _filter_cls = SimFilter
 
@@ -499,7 +566,9 @@ def install_faults(w, scn):
 
     w.fault_budget = spec.get('budget', 1)
 
-    def menu(world):
+    when = spec.get('when', 'any')
+
+    def menu(world, default=None):
         from .sched import Action
 
         acts = []
@@ -508,6 +577,8 @@ def install_faults(w, scn):
             if p.state in ('done', 'new') or (victims is not None and p.name not in victims):
                 continue
             if p is not max((q for q in world.procs if q.name == p.name), key=lambda q: q.incarnation):
+                continue
+            if when == 'next' and p is not default:      # only "instead of the victim's next step"
                 continue
 
             if 'kill' in kinds:
